@@ -152,7 +152,7 @@ static inline bool mbuf_eq_str(const struct MBuf *buf1, const char *s)
 _MUSTCHECK
 static inline bool mbuf_get_byte(struct MBuf *buf, uint8_t *dst_p)
 {
-	if (buf->read_pos + 1 > buf->write_pos)
+	if (mbuf_avail_for_read(buf) < 1)
 		return false;
 	*dst_p = buf->data[buf->read_pos++];
 	return true;
@@ -162,7 +162,7 @@ static inline bool mbuf_get_byte(struct MBuf *buf, uint8_t *dst_p)
 _MUSTCHECK
 static inline bool mbuf_get_char(struct MBuf *buf, char *dst_p)
 {
-	if (buf->read_pos + 1 > buf->write_pos)
+	if (mbuf_avail_for_read(buf) < 1)
 		return false;
 	*dst_p = buf->data[buf->read_pos++];
 	return true;
@@ -172,7 +172,7 @@ _MUSTCHECK
 static inline bool mbuf_get_uint16be(struct MBuf *buf, uint16_t *dst_p)
 {
 	unsigned a, b;
-	if (buf->read_pos + 2 > buf->write_pos)
+	if (mbuf_avail_for_read(buf) < 2)
 		return false;
 	a = buf->data[buf->read_pos++];
 	b = buf->data[buf->read_pos++];
@@ -185,7 +185,7 @@ _MUSTCHECK
 static inline bool mbuf_get_uint32be(struct MBuf *buf, uint32_t *dst_p)
 {
 	unsigned a, b, c, d;
-	if (buf->read_pos + 4 > buf->write_pos)
+	if (mbuf_avail_for_read(buf) < 4)
 		return false;
 	a = buf->data[buf->read_pos++];
 	b = buf->data[buf->read_pos++];
@@ -210,7 +210,7 @@ static inline bool mbuf_get_uint64be(struct MBuf *buf, uint64_t *dst_p)
 _MUSTCHECK
 static inline bool mbuf_get_bytes(struct MBuf *buf, unsigned len, const uint8_t **dst_p)
 {
-	if (buf->read_pos + len > buf->write_pos)
+	if (len > mbuf_avail_for_read(buf))
 		return false;
 	*dst_p = buf->data + buf->read_pos;
 	buf->read_pos += len;
@@ -221,7 +221,7 @@ static inline bool mbuf_get_bytes(struct MBuf *buf, unsigned len, const uint8_t 
 _MUSTCHECK
 static inline bool mbuf_get_chars(struct MBuf *buf, unsigned len, const char **dst_p)
 {
-	if (buf->read_pos + len > buf->write_pos)
+	if (len > mbuf_avail_for_read(buf))
 		return false;
 	*dst_p = (char *)buf->data + buf->read_pos;
 	buf->read_pos += len;
@@ -252,7 +252,7 @@ bool mbuf_make_room(struct MBuf *buf, unsigned len);
 _MUSTCHECK
 static inline bool mbuf_write_byte(struct MBuf *buf, uint8_t val)
 {
-	if (buf->write_pos + 1 > buf->alloc_len
+	if (mbuf_avail_for_write(buf) < 1
 	    && !mbuf_make_room(buf, 1))
 		return false;
 	buf->data[buf->write_pos++] = val;
@@ -263,7 +263,7 @@ static inline bool mbuf_write_byte(struct MBuf *buf, uint8_t val)
 _MUSTCHECK
 static inline bool mbuf_write(struct MBuf *buf, const void *ptr, unsigned len)
 {
-	if (buf->write_pos + len > buf->alloc_len
+	if (len > mbuf_avail_for_write(buf)
 	    && !mbuf_make_room(buf, len))
 		return false;
 	if (len > 0)
@@ -297,7 +297,7 @@ static inline bool mbuf_write_mbuf(struct MBuf *dst, struct MBuf *src, unsigned 
 _MUSTCHECK
 static inline bool mbuf_fill(struct MBuf *buf, uint8_t byte, unsigned len)
 {
-	if (buf->write_pos + len > buf->alloc_len
+	if (len > mbuf_avail_for_write(buf)
 	    && !mbuf_make_room(buf, len))
 		return false;
 	memset(buf->data + buf->write_pos, byte, len);
@@ -311,7 +311,7 @@ static inline bool mbuf_cut(struct MBuf *buf, unsigned ofs, unsigned len)
 {
 	if (buf->reader)
 		return false;
-	if (ofs + len < buf->write_pos) {
+	if (ofs < buf->write_pos && len < buf->write_pos - ofs) {
 		unsigned endofs = ofs + len;
 		memmove(buf->data + ofs, buf->data + endofs, buf->write_pos - endofs);
 		buf->write_pos -= len;
